@@ -86,11 +86,11 @@ def vfiles():
 
 # translation obligations: definitions regenerated from /repo's source on every run (harness/translate.py) and proved equal to
 # the model by conversion; a property lists the generated files its theorems lean on
-TRANSLATED = {"C05": ["NAdvanceGen", "MultistageGen", "SeqGen", "HSeqGen", "ArgminGen", "HoptGen", "OptInfGen", "Opt0Gen", "SeqPins", "AllocPins", "HelperPins"], "C13": ["NAdvanceGen", "TwoLevelGen"], "C17": ["NAdvanceGen", "SeqGen", "HSeqGen", "ArgminGen", "HoptGen", "OptInfGen", "Opt0Gen", "MemoGen", "TabulGen", "SeqPins", "BasicGen", "TwoLevelGen", "MultistageGen", "ConverterGen", "MixedGen", "AllocPins", "EnumPins"], "C10": ["FinalizeGen"], "C18": ["ActValGen", "EnumPins"], "C11": ["ObserversGen", "EnumPins"],
+TRANSLATED = {"C05": ["NAdvanceGen", "MultistageGen", "SeqGen", "HSeqGen", "ArgminGen", "HoptGen", "OptInfGen", "Opt0Gen", "SeqPins", "AllocPins", "HelperPins", "HelperGen"], "C13": ["NAdvanceGen", "TwoLevelGen"], "C17": ["NAdvanceGen", "SeqGen", "HSeqGen", "ArgminGen", "HoptGen", "OptInfGen", "Opt0Gen", "MemoGen", "TabulGen", "SeqPins", "BasicGen", "TwoLevelGen", "MultistageGen", "ConverterGen", "MixedGen", "AllocPins", "EnumPins"], "C10": ["FinalizeGen"], "C18": ["ActValGen", "EnumPins"], "C11": ["ObserversGen", "EnumPins"],
               "C01": ["BasicGen", "TwoLevelGen", "MultistageGen", "ConverterGen", "ConvertGen", "MixedGen", "SeqGen", "HSeqGen", "ArgminGen", "HoptGen", "OptInfGen", "Opt0Gen", "MemoGen", "TabulGen", "SeqPins", "AllocPins", "EnumPins"], "C02": ["BasicGen", "TwoLevelGen", "MultistageGen", "ConverterGen", "MixedGen", "SeqGen", "HSeqGen", "ArgminGen", "HoptGen", "OptInfGen", "Opt0Gen", "MemoGen", "TabulGen", "SeqPins", "AllocPins", "EnumPins"],
               "C03": ["BasicGen", "TwoLevelGen", "MultistageGen", "ConverterGen", "MixedGen", "SeqGen", "HSeqGen", "ArgminGen", "HoptGen", "OptInfGen", "Opt0Gen", "MemoGen", "TabulGen", "SeqPins", "AllocPins", "EnumPins"], "C04": ["BasicGen", "TwoLevelGen", "MultistageGen", "ConverterGen", "MixedGen", "SeqGen", "HSeqGen", "ArgminGen", "HoptGen", "OptInfGen", "Opt0Gen", "MemoGen", "TabulGen", "SeqPins", "AllocPins", "EnumPins"],
               "C08": ["BasicGen", "TwoLevelGen", "MultistageGen", "ConverterGen", "MixedGen", "SeqGen", "HSeqGen", "ArgminGen", "HoptGen", "OptInfGen", "Opt0Gen", "MemoGen", "TabulGen", "SeqPins", "AllocPins", "EnumPins"], "C09": ["BasicGen", "TwoLevelGen", "MultistageGen", "ConverterGen", "MixedGen", "SeqGen", "HSeqGen", "ArgminGen", "HoptGen", "OptInfGen", "Opt0Gen", "MemoGen", "TabulGen", "SeqPins", "AllocPins", "EnumPins"],
-              "C12": ["BasicGen", "TwoLevelGen", "MultistageGen", "ConverterGen", "ConvertGen", "MixedGen", "SeqGen", "HSeqGen", "ArgminGen", "HoptGen", "OptInfGen", "Opt0Gen", "MemoGen", "TabulGen", "SeqPins", "AllocPins", "EnumPins"], "C14": ["MultistageGen", "AllocPins"], "C06": ["MemoGen", "MixedGen", "TabulGen", "HelperPins"], "C15": ["MemoGen", "TabulGen", "BasicGen", "TwoLevelGen", "MultistageGen", "ConverterGen", "MixedGen", "SeqGen", "HSeqGen", "ArgminGen", "HoptGen", "OptInfGen", "Opt0Gen", "SeqPins", "AllocPins", "EnumPins"],
+              "C12": ["BasicGen", "TwoLevelGen", "MultistageGen", "ConverterGen", "ConvertGen", "MixedGen", "SeqGen", "HSeqGen", "ArgminGen", "HoptGen", "OptInfGen", "Opt0Gen", "MemoGen", "TabulGen", "SeqPins", "AllocPins", "EnumPins"], "C14": ["MultistageGen", "AllocPins"], "C06": ["MemoGen", "MixedGen", "TabulGen", "HelperPins", "MixHelperGen"], "C15": ["MemoGen", "TabulGen", "BasicGen", "TwoLevelGen", "MultistageGen", "ConverterGen", "MixedGen", "SeqGen", "HSeqGen", "ArgminGen", "HoptGen", "OptInfGen", "Opt0Gen", "SeqPins", "AllocPins", "EnumPins"],
               "C16": ["MemoGen", "MixedGen", "TabulGen"], "C07": ["SeqGen", "HSeqGen", "ArgminGen", "HoptGen", "OptInfGen", "Opt0Gen", "SeqPins"], "C19": ["SeqGen", "HSeqGen", "ArgminGen", "HoptGen", "OptInfGen", "Opt0Gen", "SeqPins"]}
 
 
